@@ -72,6 +72,9 @@ def steps(pool):
             yield ('divnum', i, k)
         yield ('abs', i)
         yield ('neg', i)
+        yield ('clone', i, 'copy')
+        yield ('clone', i, 'deepcopy')
+        yield ('clone', i, 'pickle')
         for u in si.UNITS[type(pool[i]).__name__]:
             yield ('to', i, u)
             yield ('to!', i, u)
@@ -91,6 +94,10 @@ def do_step(pool, st):
         return abs(pool[st[1]])
     if k == 'neg':
         return -pool[st[1]]
+    if k == 'clone':
+        import copy
+        import pickle
+        return {'copy': copy.copy, 'deepcopy': copy.deepcopy, 'pickle': lambda q: pickle.loads(pickle.dumps(q))}[st[2]](pool[st[1]])
     if k == 'to':
         return pool[st[1]].to(st[2])
     if k == 'to!':
@@ -144,6 +151,10 @@ def inspect(acc, case, pool, last, st, n_before=None, invalid_before=()):
                 b = q.to(q.unit).value
                 u = q.to(q.unit).unit
             except OK_EXC:
+                continue
+            except Exception as ex:
+                acc.violation(f'C19/program/unexpected-exception/{type(ex).__name__}/{opname}/object-unusable', 'an operation yields a valid quantity or raises ValueError', case,
+                              {'object': idx, 'exc': repr(ex)[:160]})
                 continue
             if a != q.value or b != q.value or u != q.unit or (q * 1).unit != q.unit:
                 acc.violation(f'C19/program/subkind-copies-disagree/{kind}/{opname}', 'value/unit observed through arithmetic equal the public ones', case,
@@ -322,10 +333,42 @@ def shards(tier):
             if r[1][0] == TINY and r[2][0] == 1.0 and r[1][1] != r[2][1]:
                 out.append({'mode': 'prog', 'root': r, 'depth': 4})
     out.append({'mode': 'ctor'})
+    # constructors and one program root per family again, in a process that has already simulated (complete, stopped, aborted runs)
+    out.append({'mode': 'ctor', 'disturbed': True})
+    seen = set()
+    for r in rs:
+        if r[0] not in seen and r[1][1] != r[2][1]:
+            seen.add(r[0])
+            out.append({'mode': 'prog', 'root': r, 'depth': 2, 'disturbed': True})
     return out
 
 
+def probe():
+    """Invalid quantities that must be refused (called from inside a running simulation's load function)."""
+    bad = []
+    for label, thunk in (('Length(-1 m)', lambda: gu.Length(-1, 'm')), ('Angle(-10 deg)', lambda: gu.Angle(-10, 'deg')),
+                         ('-Length(1 m)', lambda: -gu.Length(1, 'm')), ('InertiaMoment(0)', lambda: gu.InertiaMoment(0, 'kgm^2')),
+                         ('Length(1 mm) - Length(1 m)', lambda: gu.Length(1, 'mm') - gu.Length(1, 'm')),
+                         ('TimeInterval(40 ms) - TimeInterval(1 sec)', lambda: gu.TimeInterval(40, 'ms') - gu.TimeInterval(1, 'sec')),
+                         ('Surface(1 m^2) * -1', lambda: gu.Surface(1, 'm^2') * -1)):
+        try:
+            r = thunk()
+            bad.append(f'{label} returned {r!r}')
+        except ValueError:
+            pass
+    return bad
+
+
 def run_shard(shard, tier):
+    if shard.get('disturbed'):
+        from gmc import sim
+        inside = sim.disturb_process(probe)
+        acc = run_shard({k: v for k, v in shard.items() if k != 'disturbed'}, tier)
+        for f in inside + probe():
+            acc.violation('C19/probe/invalid-quantity-accepted', 'a sign-constrained quantity can never exist in violation of its constraint',
+                          {'kind': 'shard', 'shard': shard}, {'failure': f})
+        acc.relabel('/after-simulations-in-this-process', shard)
+        return acc
     acc = Acc()
     if shard['mode'] == 'prog':
         root = (shard['root'][0], tuple(shard['root'][1]), tuple(shard['root'][2]))
